@@ -6,7 +6,10 @@ pub mod c03;
 pub mod c04;
 pub mod c04_create;
 pub mod c05;
+pub mod c07;
 pub mod c15;
+pub mod c16;
+pub mod c18;
 pub mod c19;
 
 pub fn run(id: &str, tier: Tier) -> i32 {
@@ -14,7 +17,10 @@ pub fn run(id: &str, tier: Tier) -> i32 {
         "C03" => c03::run(tier),
         "C04" => c04::run(tier),
         "C05" => c05::run(tier),
+        "C07" => c07::run(tier),
         "C15" => c15::run(tier),
+        "C16" => c16::run(tier),
+        "C18" => c18::run(tier),
         "C19" => c19::run(tier),
         _ => {
             eprintln!("unknown property '{id}'");
@@ -30,7 +36,10 @@ pub fn replay(id: &str, j: &J) -> i32 {
         "C03" => c03::replay(&case),
         "C04" => c04::replay(&case),
         "C05" => c05::replay(&case),
+        "C07" => c07::replay(&case),
         "C15" => c15::replay(&case),
+        "C16" => c16::replay(&case),
+        "C18" => c18::replay(&case),
         "C19" => c19::replay(&case),
         _ => None,
     };
